@@ -18,6 +18,10 @@ for d in sorted(os.listdir(root)):
                                      else 'broken correspondence / obligation, no-failing-input-found'))
         else:
             caught.append('%s MISSED' % pid)
+    if m.get('note'):
+        caught.append('NOTE: ' + short(m['note'], 260))
+    if m.get('superseded'):
+        caught.append('SUPERSEDED: ' + short(m['superseded'], 200))
     rows.append('| %s | %s | %s | %s | %s |' % (d, m['property'], short(m['summary'], 230), short(m['needs_to_manifest'], 200), '; '.join(caught)))
 p = '/verif/DESIGN.md'
 s = open(p).read()
